@@ -11,7 +11,6 @@ from . import flow
 LEAVES = {
     'simd::l2_distance_sq_f32': 'L2SQ', 'simd::dot_f32': 'SIM', 'simd::cosine_similarity_f32': 'SIM',
     'simd::l2_norm_f32': 'NORM', 'simd::sum_squares_f32': 'NORMSQ',
-    'QueryHashCache::l2_prefix_sq': 'L2SQ',   # squared differences over a prefix of the dimensions: a lower bound on the squared distance
 }
 KERNEL_FIELDS = {'ResolvedF32Kernels.l2_distance_sq': 'L2SQ', 'ResolvedF32Kernels.dot': 'SIM', 'ResolvedF32Kernels.sum_squares': 'NORMSQ'}
 PASS_THROUGH = ('f32::max', 'f32::min', 'f32::clamp', 'f32::abs', '<impl f32>::max', '<impl f32>::min', '<impl f32>::clamp', '<impl f32>::abs')
@@ -87,10 +86,22 @@ class Scale:
             return self.kind(e[1], body, variant, env, depth, enum)
         if t == 'un':
             return self.kind(e[2], body, variant, env, depth, enum) if e[1] == 'Neg' else '?'
+        if t == 'index':
+            return 'ELEM'      # one component of a vector
         if t == 'bin':
             op = e[1]
+            # accumulator of a loop: acc = acc + X  (the running variable shows up as an unresolved local)
+            if op.startswith('Add') and (e[2][0] == 'local' or e[3][0] == 'local'):
+                other = e[3] if e[2][0] == 'local' else e[2]
+                return self.kind(other, body, variant, env, depth, enum)
             a = self.kind(e[2], body, variant, env, depth, enum)
             b = self.kind(e[3], body, variant, env, depth, enum)
+            if op.startswith('Sub') and a == b == 'ELEM':
+                return 'DIFF'
+            if op.startswith('Mul') and a == b == 'DIFF' and e[2] == e[3]:
+                return 'L2SQ'  # (a_i − b_i)², summed by the accumulator rule above
+            if op.startswith('Mul') and a == b == 'ELEM':
+                return 'SIM'   # a_i · b_i, summed: a dot product
             if op.startswith('Sub'):
                 if a == 'CONST' and b == 'SIM':
                     return 'DIST1'
